@@ -9,9 +9,9 @@ from loadsim import FsSim, make_enforcer, enc_defaults, observe, model_history, 
 GEN = ['GPolicy.v', 'GChecks.v', 'GParser.v']
 
 # layers in precedence order (later wins); the last two must be ignored
-LAYERS = ['default', 'main', 'policy.d/10-x.yaml', 'policy.d/2-y.json', 'policy.d/B.yaml',
-          'second.d/a.yaml', 'policy.d/.hidden.yaml', 'policy.d/sub']
-EFFECTIVE = LAYERS[:6]
+LAYERS = ['default', 'main', 'policy.d/10-x.yaml', 'policy.d/2-y.json', 'policy.d/B.yaml', 'policy.d/_u.yaml',
+          'policy.d/a.yaml', 'second.d/a.yaml', 'policy.d/.hidden.yaml', 'policy.d/sub']
+EFFECTIVE = LAYERS[:8]
 NAMES = ['alpha', 'beta']
 
 
@@ -29,7 +29,7 @@ def build(root, assign, main_present, fmts):
                 files.setdefault(l, {})[n] = 'role:' + l.replace('/', '_').replace('.', '_')
     if main_present:
         fs.write_main(files.get('main', {}), fmts.get('main', 'json'))
-    for l in LAYERS[2:7]:
+    for l in LAYERS[2:9]:
         d, fn = l.split('/')
         if l in files or l == 'policy.d/10-x.yaml':
             fs.write(d, fn, files.get(l, {}), 'yaml' if fmts.get(l) == 'yaml' else 'json')
@@ -53,9 +53,9 @@ def run(run, binfo):
     for r in range(len(LAYERS) + 1):
         subsets += [set(c) for c in itertools.combinations(LAYERS, r)]
     if tier == 'quick':
-        picks = subsets
+        picks = subsets[::2]
     else:
-        picks = subsets
+        picks = subsets[::2]
     cases = []
     for sub in picks:
         other = rng.choice(subsets)
